@@ -546,7 +546,11 @@ class Deb822ParsedTokenList(Generic[VE, ST],
         if error_token:
             # _print_ast(deb822_file)
             raise ValueError("Syntax error in new field value for " + field_name)
-        paragraph = next(iter(deb822_file))
+        paragraphs = list(deb822_file)
+        if len(paragraphs) != 1 or paragraphs[0].kvpair_count != 1:
+            # e.g. a value with a line that reads as another field
+            raise ValueError("New value for " + field_name + " is not the value of a single field")
+        paragraph = paragraphs[0]
         assert isinstance(paragraph, Deb822NoDuplicateFieldsParagraphElement)
         new_kvpair_element = paragraph.get_kvpair_element(field_name)
         assert new_kvpair_element is not None
